@@ -219,16 +219,28 @@ func runC11(c *Ctx) {
 	for _, acc := range []struct{ typ, m, konst string }{{"Document", "PublicKeys", pk}, {"DIDDocument", "PublicKeys", pk}, {"DIDDocument", "Services", svc}} {
 		f := c.Method("document", acc.typ, acc.m)
 		ok := false
+		var other []string
 		if f != nil {
+			// … and through nothing else: every read of the receiver is the lookup of that member (a fallback to another
+			// member — one the validator does not protect — lets a validated JSON patch supply the keys)
 			forEachInstr(f, func(in ssa.Instruction) {
 				if lk, isL := in.(*ssa.Lookup); isL {
-					if k, isK := lk.Index.(*ssa.Const); isK && c.Path(k, nil) == acc.konst {
+					if k, isK := lk.Index.(*ssa.Const); isK && c.Path(k, nil) == acc.konst && c.Path(lk.X, nil) == "$0" {
 						ok = true
+						return
+					}
+				}
+				var ops []*ssa.Value
+				for _, op := range in.Operands(ops) {
+					if *op == ssa.Value(f.Params[0]) {
+						if _, isDbg := in.(*ssa.DebugRef); !isDbg {
+							other = append(other, in.String())
+						}
 					}
 				}
 			})
 		}
-		c.Check("C11.K1", "accessor:"+acc.typ+"."+acc.m, ok, 0, fmt.Sprintf("%s.%s reads member %s", acc.typ, acc.m, acc.konst))
+		c.Check("C11.K1", "accessor:"+acc.typ+"."+acc.m, ok && len(other) == 0, 0, fmt.Sprintf("%s.%s reads member %s of the document and nothing else of it %v", acc.typ, acc.m, acc.konst, other))
 	}
 	c.Min("C11.K1", 7)
 
